@@ -16,8 +16,8 @@ PLAIN_ATTRS = ['id', 'title', 'href', 'name', 'lang', 'x_y', 'onclick']
 BOOL_ATTRS = ['checked', 'disabled', 'hidden', 'selected']
 DATA_ATTRS = ['data-x', 'data-long-name']
 VALUES = ['v', '', 'a b', 'x"y', "it's", 'a<b', 'a>b', '1', 'é☃', 'k  l', ' pad ', 'a=b', 'a & b', 'x&', '"', "'\"", '<>', 'tab\there']
-CLASS_VALUES = ['k', 'k l', ' k  l ', 'A b-c', '', 'a\tb']
-STYLE_VALUES = ['color: red', 'color:red;float:left', ' padding-top : 5px ; ', 'display: none;;', '', 'Color: RED', 'a:b;a:c']
+CLASS_VALUES = ['k', 'k l', ' k  l ', 'A b-c', '', 'a\tb', None]
+STYLE_VALUES = ['color: red', 'color:red;float:left', ' padding-top : 5px ; ', 'display: none;;', '', 'Color: RED', 'a:b;a:c', None]
 PLAIN_TEXT = ['x', ' ', '\n', 'hello world', '  two  ', 'a > b', 'é☃', '\t', 'x\ny', '1 < 2', 'a & b', '"q"', "it's", '\n  ', '>']
 ATOMS = ['&amp;', '&nbsp;', '&lt;', '&#65;', '&#x41;', '&#8364;', '<!--c-->', '<!-- spaced -->', '<!---->', '<!--a-b-->',
          '<!--x > y-->', '<!--multi\nline-->']
